@@ -508,6 +508,11 @@ func scenarios(thorough bool) []scen {
 		{name: "rotate-by-rename", initial: map[string]string{a: line("", "a1") + line("", "a2")}, sync: true, bound: 1, steps: []step{
 			{op: "rotate", path: a, to: logDir + "/a.log.1", pause: 100 * time.Millisecond},
 			{op: "append", path: a, data: line("", "n1")}, {op: "notify", kind: "create", path: a}}},
+		// one worker: EOF in the middle of a line of one file, then another file gets a complete line, then the first is completed
+		{name: "two-files-partial-in-one", initial: map[string]string{a: line("", "a1") + `{"l":"a`, b: line("", "b1")}, watch: true, bound: 1, steps: []step{
+			{op: "append", path: b, data: line("", "b2"), pause: 100 * time.Millisecond}, {op: "notify", kind: "write", path: b},
+			{op: "append", path: a, data: `2"}` + "\n", pause: 100 * time.Millisecond}, {op: "notify", kind: "write", path: a},
+			{op: "append", path: b, data: line("", "b3"), pause: 100 * time.Millisecond}, {op: "notify", kind: "write", path: b}}},
 		{name: "two-files", initial: map[string]string{a: line("", "a1") + line("", "a2"), b: line("", "b1")}, bound: 1},
 		{name: "truncate-then-write", initial: map[string]string{a: line("", "a1") + line("", "a2")}, watch: true, truncated: true, sync: true, bound: 1, steps: []step{
 			{op: "truncate", path: a, pause: 700 * time.Millisecond}, {op: "append", path: a, data: line("", "t1")}, {op: "notify", kind: "write", path: a}}},
